@@ -8,9 +8,11 @@
   bytes (a multi-byte character is then simply "not the expected byte") or trims whole characters; only the
   *length* tests (`s.len() < n`, error kind TooShort instead of Invalid) need the UTF-8 length, `utf8Len`.
   Error kinds (`PErr`) are chrono's `ParseErrorKind`; time.rs turns them into `CustomError(message)`.
-  `PErr.intOverflow` is not a chrono error: it marks the one place where chrono's arithmetic overflows `i32`
-  (`NaiveDate::from_isoywd_opt` on ISO year `i32::MIN`/`i32::MAX`, reachable through `%G`): the real outcome is
-  a panic in builds with overflow checks and `OutOfRange` otherwise, so the builtins answer "unmodelled" there.
+  One place in chrono overflows `i32`: `NaiveDate::from_isoywd_opt` on ISO year `i32::MIN`/`i32::MAX` (reachable
+  through `%G`) computes `year - 1` / `year + 1`.  A build with overflow checks panics there; without them the
+  value wraps and the result is `OutOfRange`.  `fromIsoYwd` has the wrapping result, `isoOverflow` is the
+  predicate "this call overflows", and `string_to_date/datetime` answer "unmodelled" exactly when it holds
+  (`Parsed.dateOverflow`, `Parsed.datetimeOverflow`).
 -/
 import SlacModel.TimeFmt
 set_option autoImplicit false
@@ -18,7 +20,7 @@ namespace Slac
 namespace Time
 
 inductive PErr where
-  | outOfRange | impossible | notEnough | invalid | tooShort | tooLong | badFormat | intOverflow
+  | outOfRange | impossible | notEnough | invalid | tooShort | tooLong | badFormat
 deriving DecidableEq, Repr
 
 /-- `impl Display for ParseError` -/
@@ -30,7 +32,6 @@ def PErr.msg : PErr → String
   | .tooShort => "premature end of input"
   | .tooLong => "trailing input"
   | .badFormat => "bad or unsupported format string"
-  | .intOverflow => "(arithmetic overflow in chrono)"
 
 abbrev PRes (α : Type) := Except PErr α
 
@@ -476,16 +477,23 @@ def fromYo (y : Int) (o : Nat) : Option Int :=
   if minYear ≤ y ∧ y ≤ maxYear ∧ 1 ≤ o ∧ o ≤ yearLen y then some (daysFromCivil y 1 1 + (o : Int) - 1) else none
 def yearInRange (days : Int) : Bool := decide (minYear ≤ (civilFromDays days).1) && decide ((civilFromDays days).1 ≤ maxYear)
 
-/-- `NaiveDate::from_isoywd_opt(year, week, weekday)`: Monday of ISO week 1 is the Monday on or before 4 January.
-    `.error .intOverflow`: the date lies in the calendar year before `i32::MIN` / after `i32::MAX`, where chrono
-    computes `year - 1` / `year + 1` in `i32`. -/
+/-- the date `from_isoywd_opt(year, week, weekday)` denotes: Monday of ISO week 1 is the Monday on or before 4 January -/
+def isoYwdDays (y : Int) (w wd : Nat) : Int :=
+  let jan4 := daysFromCivil y 1 4
+  jan4 - (weekday jan4 : Int) + ((w : Int) - 1) * 7 + (wd : Int)
+
+/-- `NaiveDate::from_isoywd_opt(year, week, weekday)` (with wrapping `i32` arithmetic: where `isoOverflow` holds the
+    wrapped year is far outside chrono's range, which gives the same `None` as the mathematical year) -/
 def fromIsoYwd (y : Int) (w wd : Nat) : PRes Int :=
   if w = 0 ∨ w > isoWeeksInYear y then .error .outOfRange else
-  let jan4 := daysFromCivil y 1 4
-  let d : Int := jan4 - (weekday jan4 : Int) + ((w : Int) - 1) * 7 + (wd : Int)
-  let y' := (civilFromDays d).1
-  if (y = i32Min ∧ y' < y) ∨ (y = i32Max ∧ y' > y) then .error .intOverflow
-  else if minYear ≤ y' ∧ y' ≤ maxYear then .ok d else .error .outOfRange
+  let d := isoYwdDays y w wd
+  if minYear ≤ (civilFromDays d).1 ∧ (civilFromDays d).1 ≤ maxYear then .ok d else .error .outOfRange
+
+/-- `from_isoywd_opt(year, week, weekday)` evaluates `year - 1` with `year = i32::MIN` (the date lies in the previous
+    calendar year) or `year + 1` with `year = i32::MAX` (it lies in the next one) -/
+def isoOverflow (y : Int) (w wd : Nat) : Bool :=
+  if w = 0 ∨ w > isoWeeksInYear y then false
+  else decide ((y = i32Min ∧ (civilFromDays (isoYwdDays y w wd)).1 < y) ∨ (y = i32Max ∧ (civilFromDays (isoYwdDays y w wd)).1 > y))
 
 /-- `resolve_week_date(year, week, weekday, week_start_day)`; `start`: 6 = Sunday (`%U`), 0 = Monday (`%W`) -/
 def resolveWeekDate (y : Int) (w wd start : Nat) : PRes Int :=
@@ -538,6 +546,38 @@ def verifyOrdinal (p : Parsed) (date : Int) : Bool :=
 
 def quarterOf (date : Int) : Nat := ((civilFromDays date).2.1 - 1) / 3 + 1
 
+/-- which of the five constructions of `to_naive_date` applies (they are tried in this order) -/
+inductive DateRoute where
+  | ymd (y : Int) (m d : Nat) | yo (y : Int) (o : Nat) | weekSun (y : Int) (w wd : Nat) | weekMon (y : Int) (w wd : Nat)
+  | iso (iy : Int) (iw wd : Nat) | notEnough
+deriving DecidableEq, Repr
+
+def Parsed.route (p : Parsed) (gy giy : Option Int) : DateRoute :=
+  match gy, p.month, p.day, p.ordinal, p.weekFromSun, p.weekFromMon, p.weekday, giy, p.isoWeek with
+  | some y, some m, some d, _, _, _, _, _, _ => .ymd y m d
+  | some y, _, _, some o, _, _, _, _, _ => .yo y o
+  | some y, _, _, _, some w, _, some wd, _, _ => .weekSun y w wd
+  | some y, _, _, _, _, some w, some wd, _, _ => .weekMon y w wd
+  | _, _, _, _, _, _, some wd, some iy, some iw => .iso iy iw wd
+  | _, _, _, _, _, _, _, _, _ => .notEnough
+
+/-- the candidate date of a route and whether the other fields agree with it -/
+def Parsed.candidate (p : Parsed) : DateRoute → PRes (Bool × Int)
+  | .ymd y m d =>
+    match fromYmd y m d with
+    | none => .error .outOfRange
+    | some dt => .ok (verifyIsoWeekDate p dt && verifyOrdinal p dt, dt)
+  | .yo y o =>
+    match fromYo y o with
+    | none => .error .outOfRange
+    | some dt => .ok (verifyYmd p dt && verifyIsoWeekDate p dt && verifyOrdinal p dt, dt)
+  | .weekSun y w wd =>
+    (resolveWeekDate y w wd 6).map fun dt => (verifyYmd p dt && verifyIsoWeekDate p dt && verifyOrdinal p dt, dt)
+  | .weekMon y w wd =>
+    (resolveWeekDate y w wd 0).map fun dt => (verifyYmd p dt && verifyIsoWeekDate p dt && verifyOrdinal p dt, dt)
+  | .iso iy iw wd => (fromIsoYwd iy iw wd).map fun dt => (verifyYmd p dt && verifyOrdinal p dt, dt)
+  | .notEnough => .error .notEnough
+
 /-- `Parsed::to_naive_date`: the day number -/
 def Parsed.toNaiveDate (p : Parsed) : PRes Int :=
   match resolveYear p.year p.yearDiv100 p.yearMod100 with
@@ -546,29 +586,21 @@ def Parsed.toNaiveDate (p : Parsed) : PRes Int :=
   match resolveYear p.isoYear none p.isoYearMod100 with
   | .error e => .error e
   | .ok giy =>
-    let cand : PRes (Bool × Int) :=
-      match gy, p.month, p.day, p.ordinal, p.weekFromSun, p.weekFromMon, p.weekday, giy, p.isoWeek with
-      | some y, some m, some d, _, _, _, _, _, _ =>
-        match fromYmd y m d with
-        | none => .error .outOfRange
-        | some dt => .ok (verifyIsoWeekDate p dt && verifyOrdinal p dt, dt)
-      | some y, _, _, some o, _, _, _, _, _ =>
-        match fromYo y o with
-        | none => .error .outOfRange
-        | some dt => .ok (verifyYmd p dt && verifyIsoWeekDate p dt && verifyOrdinal p dt, dt)
-      | some y, _, _, _, some w, _, some wd, _, _ =>
-        (resolveWeekDate y w wd 6).map fun dt => (verifyYmd p dt && verifyIsoWeekDate p dt && verifyOrdinal p dt, dt)
-      | some y, _, _, _, _, some w, some wd, _, _ =>
-        (resolveWeekDate y w wd 0).map fun dt => (verifyYmd p dt && verifyIsoWeekDate p dt && verifyOrdinal p dt, dt)
-      | _, _, _, _, _, _, some wd, some iy, some iw =>
-        (fromIsoYwd iy iw wd).map fun dt => (verifyYmd p dt && verifyOrdinal p dt, dt)
-      | _, _, _, _, _, _, _, _, _ => .error .notEnough
-    match cand with
+    match p.candidate (p.route gy giy) with
     | .error e => .error e
     | .ok (verified, dt) =>
       if !verified then .error .impossible
       else if !(optEqOr p.quarter (quarterOf dt)) then .error .impossible
       else .ok dt
+
+/-- `to_naive_date` reaches the overflowing subtraction/addition of `from_isoywd_opt` -/
+def Parsed.dateOverflow (p : Parsed) : Bool :=
+  match resolveYear p.year p.yearDiv100 p.yearMod100, resolveYear p.isoYear none p.isoYearMod100 with
+  | .ok gy, .ok giy =>
+    match p.route gy giy with
+    | .iso iy iw wd => isoOverflow iy iw wd
+    | _ => false
+  | _, _ => false
 
 /-- a `NaiveTime`: second of the day and nanosecond (≥ 10⁹ inside a leap second) -/
 structure NTime where
@@ -601,6 +633,36 @@ def NDT.timestamp (t : NDT) : Int := t.days * 86400 + t.time.secs
 /-- `and_utc().timestamp_millis()`: the nanosecond is truncated to milliseconds; a leap second counts 1000–1999 -/
 def NDT.millis (t : NDT) : Int := t.timestamp * 1000 + (t.time.nano / 1000000 : Nat)
 
+/-- the timestamp branch of `to_naive_datetime_with_offset`: date/time fields alone are insufficient (`rd`, `rt` are
+    the failed attempts) but a timestamp is given; the fields year, ordinal, hour, minute, second are filled in from
+    it (consistently with what is there) -/
+def Parsed.fromTimestamp (p : Parsed) (given offset : Int) (rd : PRes Int) (rt : PRes NTime) : PRes Parsed :=
+  let isErr (k : PErr) : Bool :=
+    (match rd with | .error e => e == k | _ => false) || (match rt with | .error e => e == k | _ => false)
+  if isErr .outOfRange then .error .outOfRange
+  else if isErr .impossible then .error .impossible
+  else
+    let ts := given + offset
+    if ts > i64Max ∨ ts < -(i64Max : Int) - 1 then .error .outOfRange else
+    let days := ts / 86400
+    let sod := (ts % 86400).toNat
+    if !(yearInRange days) then .error .outOfRange else
+    -- a parsed second of 60 with a timestamp that falls on second 0: the instant is one second earlier
+    let adj : PRes (Int × Nat × Parsed) :=
+      if p.second = some 60 then
+        (if sod % 60 = 59 then .ok (days, sod, p)
+         else if sod % 60 = 0 then
+           (if sod = 0 then .ok (days - 1, 86399, p) else .ok (days, sod - 1, p))
+         else .error .impossible)
+      else (p.setSecond (sod % 60 : Nat)).map fun p' => (days, sod, p')
+    match adj with
+    | .error e => .error e
+    | .ok (days, sod, p1) => do
+      let p2 ← p1.setYear (civilFromDays days).1
+      let p3 ← p2.setOrdinal (ordinalOf days)
+      let p4 ← p3.setHour (sod / 3600 : Nat)
+      p4.setMinute (sod / 60 % 60 : Nat)
+
 /-- `Parsed::to_naive_datetime_with_offset(offset)` -/
 def Parsed.toNaiveDatetime (p : Parsed) (offset : Int) : PRes NDT :=
   match p.toNaiveDate, p.toNaiveTime with
@@ -615,35 +677,24 @@ def Parsed.toNaiveDatetime (p : Parsed) (offset : Int) : PRes NDT :=
     match p.timestamp with
     | none => (match rd with | .error e => .error e | .ok _ => match rt with | .error e => .error e | .ok _ => .error .notEnough)
     | some given =>
-      let isErr (k : PErr) : Bool :=
-        (match rd with | .error e => e == k | _ => false) || (match rt with | .error e => e == k | _ => false)
-      if isErr .intOverflow then .error .intOverflow
-      else if isErr .outOfRange then .error .outOfRange
-      else if isErr .impossible then .error .impossible
-      else
-        let ts := given + offset
-        if ts > i64Max ∨ ts < -(i64Max : Int) - 1 then .error .outOfRange else
-        let days := ts / 86400
-        let sod := (ts % 86400).toNat
-        if !(yearInRange days) then .error .outOfRange else
-        -- a parsed second of 60 with a timestamp that falls on second 0: the instant is one second earlier
-        let adj : PRes (Int × Nat × Parsed) :=
-          if p.second = some 60 then
-            (if sod % 60 = 59 then .ok (days, sod, p)
-             else if sod % 60 = 0 then
-               (if sod = 0 then .ok (days - 1, 86399, p) else .ok (days, sod - 1, p))
-             else .error .impossible)
-          else (p.setSecond (sod % 60 : Nat)).map fun p' => (days, sod, p')
-        match adj with
-        | .error e => .error e
-        | .ok (days, sod, p1) => do
-          let p2 ← p1.setYear (civilFromDays days).1
-          let p3 ← p2.setOrdinal (ordinalOf days)
-          let p4 ← p3.setHour (sod / 3600 : Nat)
-          let p5 ← p4.setMinute (sod / 60 % 60 : Nat)
-          let date ← p5.toNaiveDate
-          let time ← p5.toNaiveTime
-          pure ⟨date, time⟩
+      match p.fromTimestamp given offset rd rt with
+      | .error e => .error e
+      | .ok p5 => do
+        let date ← p5.toNaiveDate
+        let time ← p5.toNaiveTime
+        pure ⟨date, time⟩
+
+/-- `to_naive_datetime_with_offset` reaches an overflowing `from_isoywd_opt` (first on the parsed fields; the second
+    `to_naive_date`, on fields completed from a timestamp, always has a year and an ordinal and never gets there) -/
+def Parsed.datetimeOverflow (p : Parsed) (offset : Int) : Bool :=
+  p.dateOverflow ||
+  (match p.toNaiveDate, p.toNaiveTime with
+   | .ok _, .ok _ => false
+   | rd, rt => match p.timestamp with
+     | none => false
+     | some given => match p.fromTimestamp given offset rd rt with
+       | .ok p5 => p5.dateOverflow
+       | .error _ => false)
 
 /-- `FixedOffset::east_opt` -/
 def validOffset (off : Int) : Bool := decide (-86400 < off) && decide (off < 86400)
@@ -672,15 +723,17 @@ def Parsed.toDatetimeUtc (p : Parsed) : PRes NDT :=
 
 /-! ### RFC 2822 and RFC 3339 -/
 
-/-- `parse_rfc2822` -/
-def parseRfc2822 (s : Str) (p : Parsed) : PRes (Str × Parsed) := do
-  let s := trimStart s
-  let (s, p) ← (match shortWeekday s with
-    | .ok (s', wd) => (match s' with
-      | ',' :: r => (p.setWeekday wd).map fun p' => (r, p')
-      | _ => .error .invalid)
-    | .error _ => .ok (s, p) : PRes (Str × Parsed))
-  let s := trimStart s
+/-- `parse_rfc2822`, part 1: `[ day-of-week "," ]` -/
+def rfcDow (s : Str) (p : Parsed) : PRes (Str × Parsed) :=
+  match shortWeekday s with
+  | .ok (s', wd) =>
+    (match s' with
+     | ',' :: r => (p.setWeekday wd).map fun p' => (r, p')
+     | _ => .error .invalid)
+  | .error _ => .ok (s, p)
+
+/-- part 2: `day month year` with the two- and three-digit year rules -/
+def rfcDate (s : Str) (p : Parsed) : PRes (Str × Parsed) := do
   let (s, d) ← number s 1 2
   let p ← p.setDay d
   let s ← scanSpace s
@@ -691,22 +744,36 @@ def parseRfc2822 (s : Str) (p : Parsed) : PRes (Str × Parsed) := do
   let ylen := s.length - s'.length
   let y := if ylen = 2 then (if y ≤ 49 then y + 2000 else y + 1900) else if ylen = 3 then y + 1900 else y
   let p ← p.setYear y
-  let s ← scanSpace s'
+  pure (s', p)
+
+/-- part 3: `hour ":" minute [ ":" second ]` -/
+def rfcTime (s : Str) (p : Parsed) : PRes (Str × Parsed) := do
   let (s, h) ← number s 2 2
   let p ← p.setHour h
   let s ← scanChar (trimStart s) ':'
-  let s := trimStart s
-  let (s, mi) ← number s 2 2
+  let (s, mi) ← number (trimStart s) 2 2
   let p ← p.setMinute mi
-  let (s, p) ← (match scanChar (trimStart s) ':' with
-    | .ok s_ => (match number s_ 2 2 with
-      | .error e => .error e
-      | .ok (s'', sec) => (p.setSecond sec).map fun p' => (s'', p'))
-    | .error _ => .ok (s, p) : PRes (Str × Parsed))
-  let s ← scanSpace s
+  match scanChar (trimStart s) ':' with
+  | .ok s_ =>
+    (match number s_ 2 2 with
+     | .error e => .error e
+     | .ok (s'', sec) => (p.setSecond sec).map fun p' => (s'', p'))
+  | .error _ => .ok (s, p)
+
+/-- part 4: the zone and trailing comments -/
+def rfcZone (s : Str) (p : Parsed) : PRes (Str × Parsed) := do
   let (s, off) ← timezoneOffset2822 s
   let p ← p.setOffset off
   pure (skipComments s.length s, p)
+
+/-- `parse_rfc2822` -/
+def parseRfc2822 (s : Str) (p : Parsed) : PRes (Str × Parsed) := do
+  let (s, p) ← rfcDow (trimStart s) p
+  let (s, p) ← rfcDate (trimStart s) p
+  let s ← scanSpace s
+  let (s, p) ← rfcTime s p
+  let s ← scanSpace s
+  rfcZone s p
 
 /-- `DateTime::parse_from_rfc2822`: the UTC date-time -/
 def rfc2822Utc (s : Str) : PRes NDT :=
@@ -723,6 +790,22 @@ def digitAt (s : Str) (i : Nat) : PRes Nat :=
   | none => .error .invalid
 def expectAt (s : Str) (i : Nat) (ok : Char → Bool) : PRes Unit :=
   if ok (charAt s i) then .ok () else .error .invalid
+
+/-- the part of `parse_rfc3339` after the 19 fixed positions: fraction, range of the time, offset, end of input,
+    conversion to UTC -/
+def rfc3339Tail (date : Int) (h mi sec : Nat) (tail : Str) : PRes NDT := do
+  let (rest, frac) ← (match tail with
+    | '.' :: r => nanosecond r
+    | r => .ok (r, 0) : PRes (Str × Nat))
+  -- `NaiveTime::from_hms_nano_opt`; a second of 60 is 59 plus 10⁹ ns
+  if h ≥ 24 ∨ mi ≥ 60 ∨ sec > 60 then .error .outOfRange else
+  let time : NTime := ⟨h * 3600 + mi * 60 + min sec 59, (if sec = 60 then 1000000000 else 0) + frac⟩
+  let (rest, off) ← timezoneOffset rest .strict true false true
+  if rest ≠ [] then .error .tooLong else
+  if !(validOffset off) then .error .outOfRange else
+  match subOffset ⟨date, time⟩ off with
+  | some u => .ok u
+  | none => .error .impossible     -- unreachable: years 0–9999 are far from the limits (chrono: `unreachable!()`)
 
 /-- `parse_rfc3339` (strict): `YYYY-MM-DD(T|t| )HH:MM:SS[.fraction](Z|z|±HH:MM)`, then the UTC date-time.
     Positions are character positions: all 19 leading positions are checked to hold ASCII characters in order, so
@@ -741,18 +824,7 @@ def rfc3339Utc (s : Str) : PRes NDT :=
   let mi := (← digitAt s 14) * 10 + (← digitAt s 15)
   expectAt s 16 (· == ':')
   let sec := (← digitAt s 17) * 10 + (← digitAt s 18)
-  let (rest, frac) ← (match s.drop 19 with
-    | '.' :: r => nanosecond r
-    | r => .ok (r, 0) : PRes (Str × Nat))
-  -- `NaiveTime::from_hms_nano_opt`; a second of 60 is 59 plus 10⁹ ns
-  if h ≥ 24 ∨ mi ≥ 60 ∨ sec > 60 then .error .outOfRange else
-  let time : NTime := ⟨h * 3600 + mi * 60 + min sec 59, (if sec = 60 then 1000000000 else 0) + frac⟩
-  let (rest, off) ← timezoneOffset rest .strict true false true
-  if rest ≠ [] then .error .tooLong else
-  if !(validOffset off) then .error .outOfRange else
-  match subOffset ⟨date, time⟩ off with
-  | some u => .ok u
-  | none => .error .impossible     -- unreachable: years 0–9999 are far from the limits (chrono: `unreachable!()`)
+  rfc3339Tail date h mi sec (s.drop 19)
 
 end Time
 end Slac
